@@ -1325,7 +1325,12 @@ class Interp:
                     else:
                         body, t = getattr(self, 'cur', (None, None))
                         ty = body.local_ty(t['dest']['l']) if body is not None else ''
-                        val = self.default_by_type(ty.lstrip('&').replace('mut ', '', 1) if ty.startswith('&') else ty, loose=True)
+                        inner_ty = ty.lstrip('&').replace('mut ', '', 1).strip() if ty.startswith('&') else ty
+                        wb = self.facts.bodies.get('<%s as core::default::Default>::default' % inner_ty)
+                        if wb is not None and wb.cfg is not None:
+                            val = self.run_body(wb, [], depth + 1)      # a workspace type: its own Default builds the slot
+                        else:
+                            val = self.default_by_type(inner_ty, loose=True)
                         if val is None:
                             raise Unmodelled('or_default on a slot of type %s' % ty)
                     h[1].items[h[2]] = Cell(val)
